@@ -291,6 +291,22 @@ def import_orders(sylt, fnd):
             ks = sorted(seen, key=str)
             fnd.report("order-dependent-imports:" + name, "%s: in order %s the program is %s, in order %s it is %s" % (name, "".join(map(str, seen[ks[0]][0])), ks[0], "".join(map(str, seen[ks[1]][0])), ks[1]),
                        dict(_UF, **{"main.sy": seen[ks[0]][1], "main_reordered.sy": seen[ks[1]][1]}), cmd="sylt -o a.lua main.sy; sylt -o b.lua main_reordered.sy")
+    # long acyclic dependency chains: the same definitions written use-before-definition, definition-before-use and shuffled
+    import random
+    for kind, mk in (("constants", lambda i, N: "c%d :: %s" % (i, ("c%d + 1" % (i + 1)) if i + 1 < N else "1")), ("functions", lambda i, N: "f%d :: fn -> int do ret %s end" % (i, ("f%d() + 1" % (i + 1)) if i + 1 < N else "1"))):
+        for N in (300, 1200):
+            defs = [mk(i, N) for i in range(N)]
+            tail = "start :: fn do\n    %s <=> %d\nend\n" % ("c0" if kind == "constants" else "f0()", N)
+            orders = {"use_before_definition": defs, "definition_before_use": defs[::-1], "shuffled": random.Random(N).sample(defs, N)}
+            seen = {}
+            for on, ds in orders.items():
+                rc, lua, out = common.compile_sy(sylt, {"main.sy": "\n".join(ds) + "\n" + tail}, extra=["--no-std"], timeout=120); n += 1
+                seen[on] = (rc == 0 and lua is not None, out[-160:].replace("\n", " "))
+            if not any(v[0] for v in seen.values()): fnd.undecided("chain of %d %s: rejected in every order (%s)" % (N, kind, list(seen.values())[0][1]))
+            if len(set(v[0] for v in seen.values())) > 1:
+                acc = [k for k, v in seen.items() if v[0]]; rej = [k for k, v in seen.items() if not v[0]]
+                fnd.report("order-dependent-acceptance:chain-of-%s" % kind, "a chain of %d %s each using the next one is accepted written %s and rejected written %s (%s)" % (N, kind, acc[0].replace("_", " "), rej[0].replace("_", " "), seen[rej[0]][1]),
+                           {"gen.txt": "N = %d; definition i is `%s`; see the description for the two orders" % (N, mk(0, N))}, cmd="python3 gen.py > main.sy   # then reverse the lines; sylt --no-std -o out.lua main.sy")
     return n
 
 
